@@ -218,7 +218,13 @@ void Value::do_sub() {
     if (!get_arith_uint256(Value(args[0]), a)) return;
     if (!get_arith_uint256(Value(args[1]), b)) return;
     if (args.size() == 3 && !get_arith_uint256(Value(args[2]), g)) return;
-    b = -b;
+    if (g.EqualTo(0)) {
+        b = -b;
+    } else {
+        // a - b (mod g) = a + (g - b mod g) (mod g)
+        b = b % g;
+        if (!b.EqualTo(0)) b = g - b;
+    }
     add(data, a, b, g);
 }
 
